@@ -10,8 +10,6 @@ Section GOOD.
   Notation GoodT := (GoodT progs).
   Notation cur_op := (cur_op progs).
 
-  Lemma GoodT_ext t th now clock tr evs : GoodT t th now clock tr -> GoodT t th now clock (evs ++ tr).
-  Proof. induction evs as [|x l IH]; simpl; auto. intros H. apply GoodT_mono; auto. Qed.
 
   (* the three usleep clauses survive any change that keeps the fields they mention and does not
      put the thread to sleep in phase [2] *)
@@ -34,13 +32,21 @@ Section GOOD.
     split; [intros X; discriminate|split; intros X; discriminate].
   Qed.
 
+  Notation fresh := (fresh progs).
+  Lemma fresh_same t th th' tr : fresh t th tr -> th_err th' = th_err th -> th_esrc th' = th_esrc th -> fresh t th' tr.
+  Proof. intros F E1 E2 e1 Hin Ht Hc. rewrite E1, E2. apply F; auto. Qed.
+  Lemma fresh_zero t th th' tr : fresh t th tr -> th_err th' = 0 -> fresh t th' tr.
+  Proof. intros F E e1 Hin Ht Hc. destruct (F e1 Hin Ht Hc) as (A & _). split; [exact A|]. intros X. congruence. Qed.
+  Lemma fresh_deliver t th th' tr : fresh t th tr -> th_esrc th' = length tr -> fresh t th' tr.
+  Proof. intros F E e1 Hin Ht Hc. destruct (F e1 Hin Ht Hc) as (A & _). split; [exact A|]. intros _. rewrite E. exact A. Qed.
+
   (* READY <-> RUNNING <-> DONE ...: a change of th_state between two non-sleeping values *)
   Lemma GoodT_restate t th now clock tr ns :
     GoodT t th now clock tr -> th_state th <> SLEEPING -> ns <> SLEEPING ->
     (th_k th <> [] -> ns = READY \/ ns = RUNNING) ->
     GoodT t (set_tstate th ns) now clock tr.
   Proof.
-    intros [A B C D E F G] Hs Hns Hk. constructor; thsimpl; [exact A| | |exact D|exact E| |exact G].
+    intros [A B C D E F G H] Hs Hns Hk. constructor; thsimpl; [exact A| | |exact D|exact E| |exact G|exact H].
     - intros X; congruence.
     - intros d Hd. destruct (C d Hd) as (C0 & C1 & C2 & C3). split; [exact C0|]. split; [|split].
       + intros Hk1. destruct (C1 Hk1) as (X1&X2&X3&X4&[X5|X5]); repeat split; auto; try tauto.
@@ -50,24 +56,33 @@ Section GOOD.
   Qed.
 
   (* a delivery by thread_interrupt / thread_shutdown whose event `ev` is pushed in the same step *)
+  Lemma delivers_not_clearing ev t e : delivers progs ev t e -> ~ clearing progs ev.
+  Proof.
+    intros (_ & [H|(f & H & _)]) ((d & Hd) & _); congruence.
+  Qed.
+
   Lemma GoodT_interrupted t th now clock tr e ev :
     GoodT t th now clock tr -> e <> 0 -> delivers progs ev t e ->
     GoodT t (interrupted th e (length tr)) now clock (ev :: tr).
   Proof.
-    intros G0 He Hd. pose proof (GoodT_mono progs _ _ _ _ _ ev G0) as G'.
+    intros G0 He Hd.
+    assert (Hnc : ev_tid ev = t -> ~ clearing progs ev) by (intros _; eapply delivers_not_clearing; eauto).
+    pose proof (GoodT_mono progs _ _ _ _ _ ev G0 Hnc) as G'.
+    pose proof (g_fresh _ _ _ _ _ _ G0) as F0.
     unfold interrupted.
     destruct (tstate_eqb_spec (th_state th) READY) as [Es|Hnr].
     - rewrite Es. destruct (th_err th =? 0) eqn:Ee; [|exact G'].
-      apply Z.eqb_eq in Ee. destruct G' as [A B C D E F G].
-      constructor; thsimpl; [exact A|exact B| | |exact E|exact F|exact G].
+      apply Z.eqb_eq in Ee. destruct G' as [A B C D E F G H].
+      constructor; thsimpl; [exact A|exact B| | |exact E|exact F|exact G| ].
       + intros d Hd'. destruct (C d Hd') as (C0 & C1 & C2 & C3). split; [exact C0|]. split; [|split].
         * intros Hk. destruct (C1 Hk) as (X1&X2&X3&X4&[X5|[X5|X5]]); repeat split; auto; congruence.
         * intros Hk. destruct (C2 Hk). split; auto.
         * intros Hk. destruct (C3 Hk) as (X1&X2&X3&X4&[X5|[X5|X5]]); repeat split; auto; congruence.
       + intros _. left. apply src_ok_new; auto.
+      + apply fresh_mono; [|exact Hnc]. eapply fresh_deliver; [exact F0|reflexivity].
     - destruct (tstate_eqb_spec (th_state th) SLEEPING) as [Es|Hns].
-      + rewrite Es. destruct G' as [A B C D E F G].
-        constructor; thsimpl; [exact A| | | | | |exact G].
+      + rewrite Es. destruct G' as [A B C D E F G H].
+        constructor; thsimpl; [exact A| | | | | |exact G| ].
         * discriminate.
         * intros d Hd'. destruct (C d Hd') as (C0 & C1 & C2 & C3). split; [exact C0|]. split; [|split].
           -- intros Hk. destruct (C1 Hk) as (X1&X2&X3&X4&X5). repeat split; auto.
@@ -76,32 +91,35 @@ Section GOOD.
         * intros _. left. apply src_ok_new; auto.
         * intros q Hq. discriminate.
         * intros _. left; auto.
+        * apply fresh_mono; [|exact Hnc]. eapply fresh_deliver; [exact F0|reflexivity].
       + destruct (th_state th); try congruence; exact G'.
   Qed.
 
   Lemma GoodT_set_shutdown t th now clock tr b : GoodT t th now clock tr -> GoodT t (set_tshutdown th b) now clock tr.
-  Proof. intros [A B C D E F G]. constructor; auto. Qed.
+  Proof. intros [A B C D E F G H]. constructor; auto. Qed.
   Lemma GoodT_set_joined t th now clock tr b : GoodT t th now clock tr -> GoodT t (set_tjoined th b) now clock tr.
-  Proof. intros [A B C D E F G]. constructor; auto. Qed.
+  Proof. intros [A B C D E F G H]. constructor; auto. Qed.
   Lemma GoodT_set_join_claimed t th now clock tr b : GoodT t th now clock tr -> GoodT t (set_tjoin_claimed th b) now clock tr.
-  Proof. intros [A B C D E F G]. constructor; auto. Qed.
+  Proof. intros [A B C D E F G H]. constructor; auto. Qed.
   Lemma GoodT_set_retval t th now clock tr b : GoodT t th now clock tr -> GoodT t (set_tretval th b) now clock tr.
-  Proof. intros [A B C D E F G]. constructor; auto. Qed.
+  Proof. intros [A B C D E F G H]. constructor; auto. Qed.
 
   (* the op starts: ghost fields *)
   Lemma GoodT_start t th now clock tr :
     GoodT t th now clock tr -> th_k th = [] ->
     GoodT t (set_tshut_issue (set_tissued th now) (th_shutdown th)) now clock tr.
   Proof.
-    intros [A B C D E F G] Hk. constructor; thsimpl; [lia|exact B| |exact D|exact E|exact F|exact G].
+    intros [A B C D E F G H] Hk. constructor; thsimpl; [lia|exact B| |exact D|exact E|exact F|exact G|exact H].
     intros d _. split; [left; exact Hk|]. split; [intros X; congruence|split; intros X; congruence].
   Qed.
 
-  Lemma GoodT_fresh t now clock tr j :
-    0 <= now -> GoodT t (mkThread READY 0 None 0 j false 0 0 [] 0 false 0 false false) now clock tr.
+  Lemma GoodT_fresh t th0 now clock tr j :
+    0 <= now -> fresh t th0 tr ->
+    GoodT t (mkThread READY 0 None 0 j false 0 0 [] 0 false 0 false false) now clock tr.
   Proof.
-    intros Hn. constructor; simpl; [lia|discriminate| |congruence|discriminate|congruence|reflexivity].
-    apply usleep_clauses_k_nil. reflexivity.
+    intros Hn F0. constructor; simpl; [lia|discriminate| |congruence|discriminate|congruence|reflexivity| ].
+    - apply usleep_clauses_k_nil. reflexivity.
+    - eapply fresh_zero; [exact F0|reflexivity].
   Qed.
 
   (* woken by the timer: state SLEEPING -> READY, waitq := None, at a moment when ts <= now' = clock *)
@@ -109,7 +127,7 @@ Section GOOD.
     GoodT t th now clock tr -> th_state th = SLEEPING -> th_ts th <= clock -> now <= clock ->
     GoodT t (set_tstate (set_twaitq th None) READY) clock clock tr.
   Proof.
-    intros [A B C D E F G] Hs Hts Hnn. specialize (B Hs). constructor; thsimpl; [lia| | |exact D| | |exact G].
+    intros [A B C D E F G H] Hs Hts Hnn. specialize (B Hs). constructor; thsimpl; [lia| | |exact D| | |exact G|exact H].
     - discriminate.
     - intros d Hd. destruct (C d Hd) as (C0 & C1 & C2 & C3). split; [exact C0|]. split; [|split].
       + intros Hk. destruct (C1 Hk) as (X1&X2&X3&X4&X5). repeat split; auto. right; right. lia.
@@ -121,14 +139,14 @@ Section GOOD.
 
   (* photon::now is refreshed (it only grows) *)
   Lemma GoodT_now_ge t th now now' clock tr : GoodT t th now clock tr -> now <= now' -> GoodT t th now' clock tr.
-  Proof. intros [A B C D E F G] H. constructor; auto. lia. Qed.
+  Proof. intros [A B C D E F G H0] H. constructor; auto. lia. Qed.
 
   (* idle: the clock advances to clock' while the thread sleeps until ts >= clock' *)
   Lemma GoodT_idle_sleeping t th now clock tr clock' :
     GoodT t th now clock tr -> th_state th = SLEEPING -> clock <= clock' -> clock' <= th_ts th ->
     GoodT t th now clock' tr.
   Proof.
-    intros [A B C D E F G] Hs H1 H2. specialize (B Hs). constructor; [exact A|intros _; lia| |exact D|exact E|exact F|exact G].
+    intros [A B C D E F G H] Hs H1 H2. specialize (B Hs). constructor; [exact A|intros _; lia| |exact D|exact E|exact F|exact G|exact H].
     intros d Hd. destruct (C d Hd) as (C0 & C1 & C2 & C3). split; [exact C0|]. split; [|split]; auto.
     - intros Hk. destruct (C1 Hk) as (X1&X2&X3&X4&X5); repeat split; auto.
     - intros Hk. destruct (C3 Hk) as (X1&X2&X3&X4&X5); repeat split; auto.
@@ -138,10 +156,10 @@ Section GOOD.
     GoodT t th now clock tr -> th_state th <> SLEEPING -> th_state th <> READY -> th_state th <> RUNNING ->
     GoodT t th now clock' tr.
   Proof.
-    intros [A B C D E F G] H1 H2 H3.
+    intros [A B C D E F G H] H1 H2 H3.
     assert (Hk : th_k th = []).
     { destruct (th_k th) eqn:Ek; auto. exfalso. destruct F as [X|[X|X]]; [congruence|auto|auto|auto]. }
-    constructor; [exact A|intros X; congruence| |exact D|exact E|intros X; congruence|exact G].
+    constructor; [exact A|intros X; congruence| |exact D|exact E|intros X; congruence|exact G|exact H].
     apply usleep_clauses_k_nil; auto.
   Qed.
 
@@ -159,7 +177,7 @@ Section GOOD.
     (t <> 0%nat -> cur_op t th <> None) ->
     GoodT t (sleep_record th k' wq exp) now clock tr.
   Proof.
-    intros [A B C D E F G] Hw Hexp Hk' Hcl Hsrc Hwq Hend.
+    intros [A B C D E F G H] Hw Hexp Hk' Hcl Hsrc Hwq Hend.
     assert (P : forall (X : Type) (p : thread -> X),
               (forall x s, p (set_tstate x s) = p x) -> (forall x q, p (set_twaitq x q) = p x) ->
               (forall x v, p (set_tts x v) = p x) -> (forall x v, p (set_tk x v) = p x) ->
@@ -180,6 +198,7 @@ Section GOOD.
     - intros q. rewrite Hwq', Hcur, Hk. apply Hwq.
     - intros _. right; right. exact Hst.
     - intros H0 Hn. rewrite Hcur in Hn. exfalso. apply (Hend H0). exact Hn.
+    - eapply fresh_same; [exact H| |]; rewrite ?(P _ th_err), ?(P _ th_esrc) by (intros; reflexivity); reflexivity.
   Qed.
 
   (* the record of a thread that has just yielded in phase k' of its op *)
@@ -190,7 +209,7 @@ Section GOOD.
     usleep_clauses t (yield_record th k') clock -> (t <> 0%nat -> cur_op t th <> None) ->
     GoodT t (yield_record th k') now clock tr.
   Proof.
-    intros [A B C D E F G] Hw Hs Hcl Hend. unfold yield_record in *.
+    intros [A B C D E F G H] Hw Hs Hcl Hend. unfold yield_record in *.
     constructor; thsimpl.
     - exact A.
     - discriminate.
@@ -199,6 +218,7 @@ Section GOOD.
     - intros q Hq. congruence.
     - intros _. left. reflexivity.
     - intros H0 Hn. exfalso. apply (Hend H0). exact Hn.
+    - eapply fresh_zero; [exact H|reflexivity].
   Qed.
 
 End GOOD.
